@@ -1,15 +1,111 @@
-mod cfgs;
-mod gen;
-mod nat;
-mod oracle;
-mod props;
-mod runner;
-mod selftest;
+use mlv::{alloc_count, gen, props, runner, selftest, supervisor};
 
-use oracle::Fmt;
+use mlv::oracle::Fmt;
 use runner::{Ctx, Tier};
 use std::path::PathBuf;
 use std::time::Instant;
+
+#[global_allocator]
+static GLOBAL: alloc_count::Counting = alloc_count::Counting;
+
+/// Replay every committed regression input of this property (corpus/regress/<ID>*.json).
+fn regress(id: &str, verif_dir: &PathBuf) -> i32 {
+    let dir = verif_dir.join("corpus").join("regress");
+    let mut files: Vec<PathBuf> = match std::fs::read_dir(&dir) {
+        Ok(rd) => rd.filter_map(|e| e.ok()).map(|e| e.path()).filter(|p| p.file_name().and_then(|n| n.to_str()).map_or(false, |n| n.starts_with(id) && n.ends_with(".json"))).collect(),
+        Err(_) => return 0,
+    };
+    files.sort();
+    for f in files {
+        let v: serde_json::Value = match std::fs::read_to_string(&f).ok().and_then(|t| serde_json::from_str(&t).ok()) {
+            Some(v) => v,
+            None => {
+                eprintln!("HARNESS-ERROR: unreadable regression file {}", f.display());
+                return 2;
+            }
+        };
+        match replay_dispatch(id, &v) {
+            Ok(true) => {
+                println!("VIOLATION property={} replay={}", id, f.display());
+                return 1;
+            }
+            Ok(false) => {}
+            Err(e) => {
+                eprintln!("HARNESS-ERROR: regression replay {}: {e}", f.display());
+                return 2;
+            }
+        }
+    }
+    0
+}
+
+fn replay_recipe(id: &str, tier: Tier, v: &serde_json::Value) -> i32 {
+    use gen::Recipe;
+    let mut st = runner::Stats::default();
+    let lim_c04 = tier.pick(gen::Limits { long: 3_000, huge: 100_000 }, gen::Limits { long: 10_000, huge: 1_000_000 });
+    let lim_c19 = tier.pick(gen::Limits { long: 1_500, huge: 5_000 }, gen::Limits { long: 10_000, huge: 100_000 });
+    if let Some(i) = v["sweep_index"].as_u64() {
+        let r = match id {
+            "C04" => props::c04::replay_sweep(i, tier, &mut st),
+            _ => Ok(()),
+        };
+        return match r {
+            Ok(()) => 0,
+            Err(f) => {
+                println!("replay: {}", f.message);
+                1
+            }
+        };
+    }
+    let r = match Recipe::from_json(v) {
+        Some(r) => r,
+        None => {
+            eprintln!("replay-recipe: not a recipe");
+            return 2;
+        }
+    };
+    let res = match id {
+        "C04" => props::c04::check_recipe(&r, lim_c04, &mut st),
+        "C08" => props::c08::check_recipe(&r, 10_000, &mut st),
+        "C12" => props::c12::check_recipe(&r, &mut st),
+        "C13" => props::c13::check_recipe(&r, &mut st),
+        "C19" => props::c19::check_recipe(&r, lim_c19, &mut st),
+        _ => {
+            eprintln!("replay-recipe: unsupported property {id}");
+            return 2;
+        }
+    };
+    match res {
+        Ok(()) => 0,
+        Err(f) => {
+            println!("replay: {}", f.message);
+            if f.harness {
+                2
+            } else {
+                1
+            }
+        }
+    }
+}
+
+fn replay_dispatch(id: &str, v: &serde_json::Value) -> Result<bool, String> {
+    match id {
+        "C01" | "C02" | "C06" | "C07" | "C04" | "C08" => props::c01::replay(v),
+        "C03" => props::c03::replay(v),
+        "C05" => props::c05::replay(v),
+        "C09" | "C10" => props::c09::replay(v),
+        "C11" => props::c11::replay(v),
+        "C12" => props::c12::replay(v),
+        "C13" => props::c13::replay(v),
+        "C14" => props::c14::replay(v),
+        "C15" => props::c15::replay(v),
+        "C16" => props::c16::replay(v),
+        "C17" => props::c17::replay(v),
+        "C18" => props::c18::replay(v),
+        "C19" => props::c19::replay(v),
+        _ => Err(format!("no replay for {id}")),
+    }
+}
 
 fn usage() -> ! {
     eprintln!("usage: mlv <ID> quick|thorough   |   mlv <ID> --replay <file>   |   mlv selftest");
@@ -43,6 +139,12 @@ fn main() {
             }
         }
     }
+    if args.len() >= 4 && args[2] == "--replay-recipe" {
+        let tier = if args.get(4).map(|s| s.as_str()) == Some("thorough") { Tier::Thorough } else { Tier::Quick };
+        let text = std::fs::read_to_string(&args[3]).unwrap_or_default();
+        let v: serde_json::Value = serde_json::from_str(&text).unwrap_or(serde_json::json!({}));
+        std::process::exit(replay_recipe(&id, tier, &v));
+    }
     if args.len() >= 4 && args[2] == "--replay" {
         let text = std::fs::read_to_string(&args[3]).unwrap_or_else(|e| {
             eprintln!("cannot read {}: {e}", args[3]);
@@ -52,19 +154,27 @@ fn main() {
             eprintln!("bad replay file: {e}");
             std::process::exit(2);
         });
-        let r = match id.as_str() {
-            "C01" | "C02" | "C06" | "C07" | "C04" => props::c01::replay(&v),
-            "C03" => props::c03::replay(&v),
-            "C05" => props::c05::replay(&v),
-            "C09" | "C10" => props::c09::replay(&v),
-            "C11" => props::c11::replay(&v),
-            "C12" => props::c12::replay(&v),
-            "C13" => props::c13::replay(&v),
-            "C14" => props::c14::replay(&v),
-            "C17" => props::c17::replay(&v),
-            "C18" => props::c18::replay(&v),
-            _ => Err(format!("no replay for {id}")),
-        };
+        if v["case"]["kind"] == "abort" {
+            // re-run the traced case in the build that died; an abnormal exit reproduces the violation
+            let which = v["case"]["binary"].as_str().unwrap_or("dbgchk");
+            let bin = if which == "release" { std::env::current_exe().unwrap() } else { PathBuf::from(std::env::var("MLV_DBGCHK_BIN").unwrap_or_else(|_| "/verif/build/harness/dbgchk/mlv".into())) };
+            let tmp = std::env::temp_dir().join(format!("mlv-replay-{}.json", std::process::id()));
+            std::fs::write(&tmp, v["case"]["trace"].to_string()).ok();
+            let st = std::process::Command::new(bin).args([id.as_str(), "--replay-recipe", tmp.to_str().unwrap(), v["tier"].as_str().unwrap_or("quick")]).status();
+            let _ = std::fs::remove_file(&tmp);
+            match st {
+                Ok(s) if s.code() == Some(0) => {
+                    println!("replay: property {} holds on this input", id);
+                    std::process::exit(0);
+                }
+                Ok(s) if s.code() == Some(2) => std::process::exit(2),
+                _ => {
+                    println!("VIOLATION property={} replay={}", id, args[3]);
+                    std::process::exit(1);
+                }
+            }
+        }
+        let r = replay_dispatch(&id, &v);
         match r {
             Ok(true) => {
                 println!("VIOLATION property={} replay={}", id, args[3]);
@@ -88,7 +198,22 @@ fn main() {
         "thorough" => Tier::Thorough,
         _ => usage(),
     };
-    let ctx = Ctx { id: id.clone(), tier, seed, threads, known: runner::load_known(&verif_dir), verif_dir: verif_dir.clone(), start: Instant::now(), scale };
+    let fragment = args.iter().position(|a| a == "--fragment").and_then(|i| args.get(i + 1)).map(PathBuf::from);
+    let ctx = Ctx { id: id.clone(), tier, seed, threads, known: runner::load_known(&verif_dir), verif_dir: verif_dir.clone(), start: Instant::now(), scale, fragment };
+    if supervisor::SUPERVISED.contains(&id.as_str()) && ctx.fragment.is_none() {
+        // regression corpus first (seconds), then the supervised workers
+        let rc = regress(&id, &verif_dir);
+        if rc != 0 {
+            std::process::exit(rc);
+        }
+        std::process::exit(supervisor::run(&ctx));
+    }
+    if ctx.fragment.is_none() {
+        let rc = regress(&id, &verif_dir);
+        if rc != 0 {
+            std::process::exit(rc);
+        }
+    }
     // every check that uses the oracle first validates it (exit 2 on failure)
     if let Err(e) = selftest::run(seed, &verif_dir) {
         eprintln!("HARNESS-ERROR selftest: {e}");
@@ -99,17 +224,22 @@ fn main() {
         "C01" => props::c01::run(&ctx, Fmt::F64),
         "C02" => props::c01::run(&ctx, Fmt::F32),
         "C03" => props::c03::run(&ctx),
+        "C04" => props::c04::run(&ctx),
         "C05" => props::c05::run(&ctx),
         "C06" => props::c06::run(&ctx),
         "C07" => props::c07::run(&ctx),
+        "C08" => props::c08::run(&ctx),
         "C09" => props::c09::run(&ctx),
         "C10" => props::c10::run(&ctx),
         "C11" => props::c11::run(&ctx),
         "C12" => props::c12::run(&ctx),
         "C13" => props::c13::run(&ctx),
         "C14" => props::c14::run(&ctx),
+        "C15" => props::c15::run(&ctx),
+        "C16" => props::c16::run(&ctx),
         "C17" => props::c17::run(&ctx),
         "C18" => props::c18::run(&ctx),
+        "C19" => props::c19::run(&ctx),
         _ => {
             eprintln!("unknown property {id}");
             2
